@@ -274,11 +274,19 @@ Definition all_root_leaves (t : list (string * hook)) : list leaf := flat_map (r
 Definition holds_C15 (hook_returned : bool) (unit_diff : Z) (others_processed : bool) : bool :=
   hook_returned && (Z.eqb unit_diff 0 || Z.eqb unit_diff 1) && others_processed.
 
-(* diff class of a unit observed through its own projection (the harness prints, for the unit, whether
-   the hook reported the unit's failure and the change of every quantity the unit writes: module
-   balances, net fees, id counters): a unit that reported failure must show no change at all *)
-Definition unit_obs_diff (failed : bool) (deltas : list Z) : Z :=
-  if failed then (if forallb (Z.eqb 0) deltas then 0 else 2) else 1.
+(* diff class of the V2 surplus / debt trigger observed through its own projection.  The harness
+   prints whether the hook reported the unit's failure (its liquidate_err event) and the change,
+   over the hook run, of everything the trigger writes: collector module balance, net fees,
+   locked-vault id counter, auction id counter, "auction active" flag of the mapping.
+     0 = nothing of the unit is visible;
+     1 = the complete unit: no failure reported, one locked vault, one auction, the mapping marked
+         active, and the lot taken from the collector balance and from the net fees alike (a
+         surplus auction; a debt auction takes nothing);
+     2 = anything else (partial). *)
+Definition trigger_obs_diff (failed : bool) (dcoll dnet dlocked dauction dactive : Z) : Z :=
+  if forallb (Z.eqb 0) [dcoll; dnet; dlocked; dauction; dactive] then 0
+  else if negb failed && Z.eqb dlocked 1 && Z.eqb dauction 1 && Z.eqb dactive 1 && Z.eqb dnet dcoll && Z.leb dcoll 0 then 1
+  else 2.
 
 (* what the table predicts for a failure injected into the unit [uid]: wrapped units show no writes *)
 Definition table_says_wrapped (uid : string) : bool :=
